@@ -11,6 +11,8 @@ import (
 	"fmt"
 	"net"
 	"net/http"
+	"runtime"
+	"strings"
 	"sync"
 	"sync/atomic"
 	"time"
@@ -71,6 +73,21 @@ func setThr(cluster, path string, ft, st int) {
 	mu.Unlock()
 }
 
+// liveCheckers counts goroutines currently inside health_check.go:check (from the runtime's stack dump).
+func liveCheckers() int {
+	buf := make([]byte, 1<<18)
+	n := runtime.Stack(buf, true)
+	return strings.Count(string(buf[:n]), "bfe_balance/backend.check(")
+}
+
+// waitGone waits until no check goroutine is alive or a further check request shows up.
+func waitGone() {
+	deadline := time.Now().Add(3 * time.Second)
+	for liveCheckers() > 0 && atomic.LoadInt32(&pending) == 0 && time.Now().Before(deadline) {
+		time.Sleep(20 * time.Microsecond)
+	}
+}
+
 func waitArrival(d time.Duration) bool {
 	select {
 	case <-arrivals:
@@ -119,7 +136,7 @@ func impl(in hv.Val) hv.Val {
 			if before && !back.Avail() && !released {
 				waitArrival(3 * time.Second) // the checker that was just started issues its first request
 			} else if released {
-				time.Sleep(2 * time.Millisecond) // a checker must not appear
+				waitGone() // a checker started for a removed backend leaves at once
 			}
 		case 2:
 			back.OnSuccess()
@@ -131,7 +148,11 @@ func impl(in hv.Val) hv.Val {
 				}
 				respond <- code
 				if released {
-					time.Sleep(5 * time.Millisecond) // the checker must leave; a further request would show as pending
+					// the checker must finish this iteration and leave; a further request would show as pending
+					for atomic.LoadInt32(&pending) > 0 {
+						time.Sleep(10 * time.Microsecond)
+					}
+					waitGone()
 					select {
 					case <-arrivals:
 					default:
@@ -168,7 +189,11 @@ func impl(in hv.Val) hv.Val {
 	mu.Unlock()
 	for k := 0; k < 4 && atomic.LoadInt32(&pending) > 0; k++ {
 		respond <- 500
-		time.Sleep(time.Millisecond)
+		time.Sleep(200 * time.Microsecond)
+	}
+	deadline := time.Now().Add(3 * time.Second)
+	for liveCheckers() > 0 && time.Now().Before(deadline) {
+		time.Sleep(20 * time.Microsecond)
 	}
 	return out
 }
